@@ -69,9 +69,9 @@ BOUND = Fraction(1, 2**30)
 # unchanged code needs at most a few hundred (measured maximum printed in the evidence as
 # `max_operator_applications_per_step`); see notes/C07.md.
 WORK_LIMIT = 20000
-WORK_LIMIT_LOW = 4000  # limit of the remaining steps of a run once 3 steps have exceeded WORK_LIMIT
+WORK_LIMIT_LOW = 4000  # limit of the remaining steps of a run once 2 steps (GMRES-type solvers) have hit WORK_LIMIT
 CASE_WALL_S = 300.0  # wall-clock guard of one step: the case is skipped (never judged)
-SHRINK_WALL_S = 45.0  # wall-clock budget of one shrink (only the size of the replay depends on it)
+SHRINK_WALL_S = 30.0  # wall-clock budget of one shrink (only the size of the replay depends on it)
 _EXCEEDED = [0]  # number of steps of this process that hit the work limit
 MAX_EXP = 48
 
@@ -678,12 +678,13 @@ def _store(discs) -> dict[str, Any]:
 
 def _guarded(fun, solver="") -> dict[str, Any]:
     """Run one step of the implementation under the work limit; exceptions are observations."""
-    limit = WORK_LIMIT if _EXCEEDED[0] < 3 else WORK_LIMIT_LOW
+    limit = WORK_LIMIT if _EXCEEDED[0] < 2 else WORK_LIMIT_LOW
     try:
         with work_limit(limit, CASE_WALL_S, "lanczos-type" if solver in LANCZOS else "gmres-type"):
             return fun()
     except WorkLimit:
-        _EXCEEDED[0] += 1
+        if solver not in LANCZOS:
+            _EXCEEDED[0] += 1
         return {"exc": "work-limit", "msg": f"more than {limit} linear-operator applications"}
     except WallClockSkip:
         return {"skip": "wall-clock"}
@@ -735,6 +736,7 @@ class MdaSession:
         self.reuse = case.get("reuse", "fresh")
         self.discs = None
         self.mda = None
+        self.tainted = False  # a step was interrupted (work limit): the objects are in an undefined state
 
     def _new_discs(self):
         c = self.case
@@ -762,9 +764,13 @@ class MdaSession:
             jac = mda.linearize(_point(self.system, st.get("point", 0)))
             return {"jac": _collect(jac, st)}
 
+        if self.tainted and self.reuse != "fresh":
+            return {"skip": "after-interrupted-step"}
         obs = _guarded(fun, cfg["solver"])
         if self.discs is not None and "skip" not in obs:
             obs["store"] = _store(self.discs)
+        if "skip" in obs or obs.get("exc") == "work-limit":
+            self.tainted = True
         return obs
 
 
@@ -788,6 +794,7 @@ class AssemblySession:
         self.cs = CouplingStructure(self.discs)
         self.assembly = JacobianAssembly(self.cs)
         self.states = all_states(system)
+        self.tainted = False
         self.in_data = {}
         for d in self.discs:
             for n in d.io.input_grammar:
@@ -816,9 +823,13 @@ class AssemblySession:
             )
             return {"jac": _collect(jac, request)}
 
+        if self.tainted:
+            return {"skip": "after-interrupted-step"}
         obs = _guarded(fun, cfg["solver"])
         if "skip" not in obs:
             obs["store"] = _store(self.discs)
+        if "skip" in obs or obs.get("exc") == "work-limit":
+            self.tainted = True
         return obs
 
     def assemble(self, functions, variables, is_residual: bool) -> dict[str, Any]:
@@ -1130,7 +1141,7 @@ def case_failures(case, exact=None, observations=None) -> list[tuple[int, str, s
     observations = observations if observations is not None else run_case(case)
     for k, (st, ob) in enumerate(zip(case["steps"], observations)):
         if "skip" in ob:
-            out.append((k, "probe:skipped-" + ob["skip"], "step skipped (wall-clock guard), not judged"))
+            out.append((k, "probe:skipped-" + ob["skip"], "step skipped (" + ob["skip"] + "), not judged"))
             continue
         cfg = step_cfg(case, st)
         bad = oracle(system, st, cfg, ob, exact, exps)
@@ -1147,7 +1158,7 @@ def case_failures(case, exact=None, observations=None) -> list[tuple[int, str, s
                 s2["solver"] = "GMRES"
             ob2 = run_case(alt)[k]
             if "skip" in ob2:
-                out.append((k, "probe:skipped-" + ob2["skip"], "step skipped (wall-clock guard), not judged"))
+                out.append((k, "probe:skipped-" + ob2["skip"], "step skipped (" + ob2["skip"] + "), not judged"))
                 continue
             bad2 = oracle(system, alt["steps"][k], step_cfg(alt, alt["steps"][k]), ob2, exact, exps)
             if not bad2 or bad2[0][0].startswith("probe:"):
@@ -1502,6 +1513,7 @@ def run_asm(system, kinds, a) -> dict[str, Any]:
         mt = sess.assembly.assemble_jacobian(a["functions"], a["variables"], is_residual=a["is_residual"])
         obs["matT"] = np.asarray(mt.T.toarray(), dtype=float).tolist()
     except Exception as e:  # noqa: BLE001
+        _reraise_machinery(e)
         return {"exc": common.exc_class(e), "msg": repr(e)[:300]}
     return obs
 
@@ -1844,8 +1856,8 @@ def run(ctx) -> Result:
         "requests are connected: every requested function depends on a requested variable at the level of the discipline graph and conversely (the code raises on purpose otherwise)",
         "BICG/BICGSTAB/CGS/TFQMR: a SciPy break-down (RuntimeError) is counted, not judged; an inaccurate result is a violation only if GMRES reproduces it",
         "CG is excluded (needs a symmetric positive definite matrix, the residual Jacobian is not)",
-        f"work limit: a step may apply SciPy linear operators at most {WORK_LIMIT} times ({WORK_LIMIT_LOW} once three steps "
-        "of the run have hit the limit); the count is deterministic (no wall clock). A step stopped at the limit is an oracle "
+        f"work limit: a step may apply SciPy linear operators at most {WORK_LIMIT} times ({WORK_LIMIT_LOW} once two steps "
+        "of the run with a GMRES-type solver have hit the limit); the count is deterministic (no wall clock). A step stopped at the limit is an oracle "
         "failure only if the exact observation of the disciplines' Jacobians shows that the operands of the assembly were "
         f"modified, otherwise it is skipped (probe:work-limit-unconfirmed); a step running longer than {CASE_WALL_S:.0f} s "
         "of wall clock is skipped too (counted, never judged)",
@@ -1894,7 +1906,7 @@ def run(ctx) -> Result:
 
 def replay(path: str) -> int:
     data = json.loads(open(path).read())
-    rp = data["replay"]
+    rp = data.get("replay", data)  # a replay file, or a corpus file ({"case": ...})
     if "case" in rp and "steps" in rp["case"]:
         case = rp["case"]
         obs = run_case(case)
